@@ -751,9 +751,12 @@ def c11_extra(ctx):
     for k in range(n // 4):
         t, _ = gen.random_program(rng)
         reqs.append(("ast", f"b{k}", t, []))
+    if replay_payload(ctx).get("program"):
+        reqs.insert(0, ("ast", "replay", replay_payload(ctx)["program"], []))
     m, i = corr.run_both(reqs)
     nd = 0
     deep = 0
+    nv_ = 0
     for kind, rid, text, _ in reqs:
         a, b = m[rid], i[rid]
         if "err" in a or "err" in b:
@@ -764,6 +767,16 @@ def c11_extra(ctx):
             continue
         if "[" in json.dumps(b):
             deep += 1
+        # independent oracle: operands by the AVM's own arities (Spec/AvmTables.v via Spec/AvmDump.v), tools/avmspec.py
+        if nv_ < 3:
+            try:
+                bad = avmspec.check_operands(text, b)
+            except Exception as e:  # pylint: disable=broad-except
+                bad = []
+                ctx["cov"]["avm_operand_oracle_error"] = str(e)[:300]
+            if bad:
+                nv_ += 1
+                ctx["violations"].append((bad[0], {"kind": "avm-operands", "program": text}))
         if a != b:
             nd += 1
             if nd <= 3:
@@ -771,6 +784,7 @@ def c11_extra(ctx):
                 ctx["broken"].append(f"correspondence (operand trees) on {text!r}: block {blk[:1]}: model={json.dumps(a.get(blk[0]) if blk else a)[:300]} impl={json.dumps(b.get(blk[0]) if blk else b)[:300]}")
     ctx["cov"]["operand_tree_cases"] = len(reqs)
     ctx["cov"]["operand_tree_disagreements"] = nd
+    ctx["cov"]["avm_operand_oracle_rows"] = avmspec.STATS.get("operand_rows_compared", 0)
 
 
 LINE_EXTRA["C11"] = c11_extra
